@@ -121,9 +121,10 @@ def clang_ast(path, filt, extra=()):
 class Conv:
     """converts one FunctionDecl (with body) to IR"""
 
-    def __init__(self, srcfile):
+    def __init__(self, srcfile, tolerant=False):
         self.srcfile = srcfile
         self.line = None
+        self.tolerant = tolerant
 
     # ---- helpers
     def _line(self, n):
@@ -235,10 +236,56 @@ class Conv:
                 if self._is_error_type(inner[0]):
                     return [["ret", ["fwd", name, cid, [self.expr(x) for x in args]], ln]]
             return [["ret", ["val", self.expr(inner[0])], ln]]
-        if k in ("SwitchStmt", "CXXForRangeStmt", "CXXTryStmt", "GotoStmt", "LabelStmt"):
+        if k == "SwitchStmt":
+            inner = [x for x in n["inner"] if x.get("kind")]
+            cond, body = inner[-2], inner[-1]
+            cases = []
+            for c in body.get("inner", []):
+                self._collect_cases(c, cases)
+            return [["switch", self.expr(cond), cases, ln]]
+        if k == "GotoStmt":
+            return [["goto", n.get("targetLabelDeclId"), ln]]
+        if k == "LabelStmt":
+            inner = [x for x in n.get("inner", []) if x.get("kind")]
+            out = [["label", n.get("name"), n.get("declId"), ln]]
+            for x in inner:
+                out.extend(self.stmt(x))
+            return out
+        if k in ("CXXForRangeStmt", "CXXTryStmt"):
+            if self.tolerant:
+                return [["unsupported_stmt", k, ln]]
             raise Unsupported("stmt kind %s" % k)
         # expression statement
         return [["expr", self.expr(n), ln]]
+
+    def _collect_cases(self, c, cases):
+        k = c.get("kind")
+        if k == "CaseStmt":
+            inner = [x for x in c["inner"] if x.get("kind")]
+            val = self.expr(inner[0])
+            sub = inner[-1]
+            label = self._case_label(inner[0])
+            if sub.get("kind") in ("CaseStmt", "DefaultStmt"):
+                cases.append([val, label, [], self._line(c)])      # falls through to the next label
+                self._collect_cases(sub, cases)
+            else:
+                cases.append([val, label, self.stmt(sub), self._line(c)])
+        elif k == "DefaultStmt":
+            inner = [x for x in c["inner"] if x.get("kind")]
+            cases.append([None, "default", self.stmt(inner[-1]) if inner else [], self._line(c)])
+        else:
+            # a statement between labels belongs to the preceding case
+            if cases:
+                cases[-1][2].extend(self.stmt(c))
+
+    def _case_label(self, n):
+        while n.get("kind") in ("ConstantExpr", "ImplicitCastExpr", "ParenExpr"):
+            n = n["inner"][0]
+        if n.get("kind") == "DeclRefExpr":
+            return n["referencedDecl"].get("name")
+        if n.get("kind") == "IntegerLiteral":
+            return n.get("value")
+        return "?"
 
     def _is_error_type(self, n):
         t = n.get("type", {})
@@ -284,6 +331,17 @@ class Conv:
 
     # ---- expressions
     def expr(self, n):
+        """never raises for C++ units: an untranslatable sub-expression becomes an explicit node that the
+        evaluator refuses, so only the paths that reach it are lost"""
+        if not self.tolerant:
+            return self.expr0(n)
+        try:
+            return self.expr0(n)
+        except Unsupported as ex:
+            ty = unconst(map_type(n["type"])) if "type" in n else "void"
+            return ["unsupported", str(ex), ty]
+
+    def expr0(self, n):
         k = n.get("kind")
         ty = map_type(n["type"]) if "type" in n else "void"
         ty = unconst(ty)
@@ -311,6 +369,8 @@ class Conv:
                 return ["fn", rd["name"], rd.get("id"), ty]
             if rd["kind"] == "EnumConstantDecl":
                 return ["enum", rd["name"], ty]
+            if rd["kind"] == "FieldDecl":
+                return ["v", rd["name"], ty]
             if rd["kind"] == "NonTypeTemplateParmDecl":
                 return ["v", rd["name"], ty]
             raise Unsupported("declref kind %s" % rd["kind"])
@@ -320,14 +380,14 @@ class Conv:
             inner = [x for x in n["inner"] if x.get("kind")]
             e = self.expr(inner[0])
             if ck in ("LValueToRValue", "NoOp", "ArrayToPointerDecay", "FunctionToPointerDecay",
-                      "ConstructorConversion", "UserDefinedConversion"):
+                      "ConstructorConversion", "UserDefinedConversion", "UncheckedDerivedToBase", "DerivedToBase"):
                 if ck == "NoOp" and k != "ImplicitCastExpr" and ty.startswith("p:"):
                     # e.g. (T*)ptr adding/dropping const
                     return ["cast", e, ty, "noop"]
                 return e
             if ck in ("IntegralCast", "IntegralToBoolean", "IntegralToFloating", "FloatingToIntegral",
                       "FloatingCast", "FloatingToBoolean", "BooleanToSignedIntegral",
-                      "PointerToBoolean", "NullToPointer", "BitCast"):
+                      "PointerToBoolean", "NullToPointer", "BitCast", "PointerToIntegral", "IntegralToPointer"):
                 return ["cast", e, ty, ck]
             if ck == "ToVoid":
                 return e
@@ -369,6 +429,9 @@ class Conv:
                 raise Unsupported("indirect call")
             return ["call", callee[0], [self.expr(x) for x in n["inner"][1:]], ty]
         if k == "CXXDefaultArgExpr":
+            inner = [x for x in n.get("inner", []) if x.get("kind")]
+            if inner and self.tolerant:
+                return self.expr(inner[0])
             raise Unsupported("default arg")
         if k == "UnaryExprOrTypeTraitExpr":
             if n.get("name") == "sizeof":
@@ -385,6 +448,11 @@ class Conv:
                         return ["c", 1, ty]
             raise Unsupported("sizeof")
         if k == "MemberExpr":
+            b = n["inner"][0]
+            while b.get("kind") in ("ImplicitCastExpr", "ParenExpr") and b.get("castKind") in (None, "NoOp", "UncheckedDerivedToBase", "DerivedToBase"):
+                b = b["inner"][0]
+            if b.get("kind") == "CXXThisExpr":
+                return ["v", n.get("name"), ty]         # a data member of *this: treated as a variable of the unit
             base = self.expr(n["inner"][0])
             return ["member", base, n.get("name"), 1 if n.get("isArrow") else 0, ty]
         if k == "CXXThisExpr":
@@ -392,12 +460,20 @@ class Conv:
         if k == "CXXMemberCallExpr":
             callee = n["inner"][0]
             if callee.get("kind") == "MemberExpr":
+                b = callee["inner"][0]
+                while b.get("kind") in ("ImplicitCastExpr", "ParenExpr"):
+                    b = b["inner"][0]
+                if b.get("kind") == "CXXThisExpr":
+                    return ["call", "this." + callee.get("name"), [self.expr(x) for x in n["inner"][1:]], ty]
                 obj = self.expr(callee["inner"][0])
                 return ["mcall", obj, callee.get("name"), [self.expr(x) for x in n["inner"][1:]], ty]
             raise Unsupported("member call")
         if k == "CXXOperatorCallExpr":
             callee = self._callee(n["inner"][0])
-            return ["opcall", callee[0] if callee else "?", [self.expr(x) for x in n["inner"][1:]], ty]
+            args = [self.expr(x) for x in n["inner"][1:]]
+            if callee and callee[0] == "operator[]" and len(args) == 2:
+                return ["ld", args[0], args[1], ty]     # std::vector / array-like subscript
+            return ["opcall", callee[0] if callee else "?", args, ty]
         if k in ("CXXConstructExpr", "CXXTemporaryObjectExpr"):
             args = [self.expr(x) for x in n.get("inner", []) if x.get("kind")]
             if len(args) == 1 and k == "CXXConstructExpr" and n.get("elidable"):
@@ -447,14 +523,14 @@ def header_hash():
     return _hdr_hash
 
 
-def extract_file(path, filt="awkward_", extra=(), only_main_file=True, use_cache=True):
+def extract_file(path, filt="awkward_", extra=(), only_main_file=True, use_cache=True, tolerant=False):
     """returns {'functions': [...], 'templates': {...}, 'errors': str}
 
     functions: every FunctionDecl with a body (non-template), and every
     instantiation of a function template, converted to IR."""
     h = hashlib.sha1()
     h.update(header_hash().encode())
-    h.update(repr((filt, tuple(extra), only_main_file)).encode())
+    h.update(repr((filt, tuple(extra), only_main_file, tolerant)).encode())
     h.update(open(path, "rb").read())
     key = h.hexdigest()
     cpath = os.path.join(CACHE, "ir", key + ".json")
@@ -464,7 +540,7 @@ def extract_file(path, filt="awkward_", extra=(), only_main_file=True, use_cache
         except Exception:
             pass
     docs, err = clang_ast(path, filt, extra)
-    conv = Conv(path)
+    conv = Conv(path, tolerant=tolerant)
     funcs = []
     seen = set()
 
@@ -521,3 +597,59 @@ if __name__ == "__main__":
         print(f["name"], f["targs"], f["params"], f.get("unsupported"))
         if len(sys.argv) > 2:
             print(json.dumps(f["body"], indent=1))
+
+
+def extract_class_methods(path, classname, targs, extra=(), use_cache=True):
+    """methods (with bodies) of the ClassTemplateSpecializationDecl classname<targs...> in the given file,
+    converted to IR: {method name: [func, ...]} plus the field list"""
+    h = hashlib.sha1()
+    h.update(header_hash().encode())
+    h.update(repr((classname, tuple(targs), tuple(extra))).encode())
+    h.update(open(path, "rb").read())
+    cpath = os.path.join(CACHE, "ir", "class_" + h.hexdigest() + ".json")
+    if use_cache and os.path.exists(cpath):
+        try:
+            return json.load(open(cpath))
+        except Exception:
+            pass
+    docs, err = clang_ast(path, classname, extra)
+    conv = Conv(path, tolerant=True)
+    out = {"methods": {}, "fields": [], "errors": err[-2000:], "file": os.path.relpath(path, REPO)}
+
+    def targs_of(d):
+        r = []
+        for x in d.get("inner", []):
+            if x.get("kind") == "TemplateArgument":
+                r.append(_map_type_str(x.get("type", {}).get("qualType", "?")) if "type" in x else str(x.get("value")))
+        return r
+
+    def visit(d):
+        if d.get("kind") == "ClassTemplateSpecializationDecl" and d.get("name") == classname:
+            if [t for t in targs_of(d)] == list(targs):
+                for x in d.get("inner", []):
+                    if x.get("kind") == "FieldDecl":
+                        out["fields"].append([x.get("name"), map_type(x["type"])])
+                    elif x.get("kind") in ("CXXMethodDecl", "CXXConstructorDecl"):
+                        f = conv.func(x)
+                        if f is not None:
+                            f["file"] = out["file"]
+                            f["template"] = classname
+                            out["methods"].setdefault(x.get("name"), []).append(f)
+                    elif x.get("kind") == "FunctionTemplateDecl":
+                        for y in x.get("inner", []):
+                            if y.get("kind") == "CXXMethodDecl" and any(z.get("kind") == "TemplateArgument" for z in y.get("inner", [])):
+                                f = conv.func(y)
+                                if f is not None:
+                                    f["file"] = out["file"]
+                                    f["template"] = classname
+                                    out["methods"].setdefault(y.get("name"), []).append(f)
+        for x in d.get("inner", []) if d.get("kind") in ("ClassTemplateDecl", "NamespaceDecl") else []:
+            visit(x)
+
+    for d in docs:
+        visit(d)
+    os.makedirs(os.path.dirname(cpath), exist_ok=True)
+    tmp = cpath + ".%d.tmp" % os.getpid()
+    json.dump(out, open(tmp, "w"))
+    os.replace(tmp, cpath)
+    return out
